@@ -10,6 +10,7 @@ import (
 	"math/rand"
 	"net/url"
 	"strings"
+	"sync"
 	"sync/atomic"
 	"time"
 
@@ -102,7 +103,11 @@ func (w *wire) putID(p placed) {
 		w.body = append(w.body, kv{"client_id", p.Val})
 		w.hasBody = true
 	default: // bogus place
-		w.headers = append(w.headers, kv{"X-Client-Id", p.Val})
+		if headerTransportable(p.Val) {
+			w.headers = append(w.headers, kv{"X-Client-Id", p.Val})
+		} else {
+			w.query = append(w.query, kv{"clientid", p.Val})
+		}
 	}
 }
 
@@ -116,11 +121,19 @@ func (w *wire) putSecret(p placed) {
 	case "header":
 		w.headers = append(w.headers, kv{"X-Client-Secret", p.Val})
 	case "bogus-header":
-		w.headers = append(w.headers, kv{"Client-Secret", p.Val})
+		if headerTransportable(p.Val) {
+			w.headers = append(w.headers, kv{"Client-Secret", p.Val})
+		} else {
+			w.query = append(w.query, kv{"secret", p.Val})
+		}
 	case "bogus-query":
 		w.query = append(w.query, kv{"secret", p.Val})
 	default:
-		w.cookies = append(w.cookies, "client_secret="+p.Val)
+		if cookieSafe(p.Val) {
+			w.cookies = append(w.cookies, "client_secret="+p.Val)
+		} else {
+			w.query = append(w.query, kv{"secret", p.Val})
+		}
 	}
 }
 
@@ -138,6 +151,35 @@ func presentedRight(ps []placed, right string, places ...string) bool {
 		}
 	}
 	return false
+}
+
+// pieceSuffix names, for the signature, that a request without the exact configured value presented
+// something derived from PARTS of it (a piece of a list, the trimmed value, ...).
+func pieceSuffix(ids, secrets []placed, idOK, secOK bool, id, secret string) string {
+	has := func(ps []placed, right string, places []string) bool {
+		d := derived(right)
+		for _, p := range ps {
+			for _, pl := range places {
+				if p.Place != pl || p.Val == "" {
+					continue
+				}
+				for _, c := range d {
+					if c.val == p.Val {
+						return true
+					}
+				}
+			}
+		}
+		return false
+	}
+	out := ""
+	if !idOK && has(ids, id, idPlaces) {
+		out += " presented=piece-of-configured-id"
+	}
+	if !secOK && has(secrets, secret, secretPlaces) {
+		out += " presented=piece-of-configured-secret"
+	}
+	return out
 }
 
 var idPlaces = []string{"query", "form"}
@@ -163,6 +205,13 @@ func pick(r *rand.Rand, xs ...string) string { return xs[r.Intn(len(xs))] }
 func nearMiss(r *rand.Rand, right string, headerSafe bool) (string, string) {
 	for {
 		var v, kind string
+		if r.Intn(3) == 0 {
+			val, k := derivedByCategory(r, right, r.Intn(len(pieceCategories)), r.Intn(3))
+			if !headerSafe || (headerExact(val) && val != "") {
+				return val, k
+			}
+			continue
+		}
 		switch r.Intn(12) {
 		case 0:
 			v, kind = randFrom(r, alnum, 4+r.Intn(24)), "random"
@@ -195,11 +244,239 @@ func nearMiss(r *rand.Rand, right string, headerSafe bool) (string, string) {
 		if v == right || v == "" {
 			continue
 		}
-		if headerSafe && !isToken(v) {
+		if headerSafe && !headerExact(v) {
 			continue
 		}
 		return v, kind
 	}
+}
+
+// headerTransportable: the value can be written as an HTTP header field value at all.
+func headerTransportable(s string) bool {
+	for i := 0; i < len(s); i++ {
+		if (s[i] < 0x20 && s[i] != '\t') || s[i] > 0x7e {
+			return false
+		}
+	}
+	return true
+}
+
+// headerExact: a header field delivers exactly this value (HTTP strips surrounding spaces and tabs).
+func headerExact(s string) bool { return headerTransportable(s) && strings.Trim(s, " \t") == s }
+
+// cookieSafe: usable verbatim as a cookie value.
+func cookieSafe(s string) bool { return isToken(s) && !strings.ContainsAny(s, ";,\"\\") }
+
+// normalise makes the recorded presentation equal to what the wire delivers: a value that cannot
+// travel in a header goes to fallback instead; a header value is what is left after HTTP has
+// stripped the surrounding blanks. The ground truth is computed from the result.
+func normalise(ps []placed, fallback string) []placed {
+	for k := range ps {
+		if ps[k].Place != "header" {
+			continue
+		}
+		if !headerTransportable(ps[k].Val) {
+			ps[k].Place = fallback
+			continue
+		}
+		ps[k].Val = strings.Trim(ps[k].Val, " \t")
+	}
+	return ps
+}
+
+// piecesKind marks presentations derived from PARTS of the configured value.
+const piecesKind = "piece:"
+
+type derivedVal struct{ val, kind string }
+
+var derivedCache sync.Map
+
+var listSeparators = []string{",", ";", "|", ":", " ", "\t", "\n", "\r\n", "\r", "=", "\"", "'", "[", "]", "{", "}", "-", "_", ".", "/", "+", "&", "%"}
+
+const coreSeparators = ",;|: \t\r\n=\"'[]{}"
+
+// derived lists wrong values a lenient parser of the CONFIGURED value might accept: every piece
+// obtained by splitting on a separator (raw, trimmed, unquoted), the value with separators or
+// whitespace stripped, trimmed, pieces re-joined in reverse order, JSON elements, whitespace only.
+func derived(v string) []derivedVal {
+	if c, ok := derivedCache.Load(v); ok {
+		return c.([]derivedVal)
+	}
+	seen := map[string]bool{v: true, "": true}
+	var out []derivedVal
+	add := func(x, kind string) {
+		if !seen[x] {
+			seen[x] = true
+			out = append(out, derivedVal{x, piecesKind + kind})
+		}
+	}
+	const cut = " \t\r\n\"'[]{}"
+	pieces := func(parts []string, how string) {
+		for _, p := range parts {
+			add(p, "split-"+how)
+			add(strings.TrimSpace(p), "split-"+how+"-trimmed")
+			add(strings.Trim(p, cut), "split-"+how+"-unquoted")
+		}
+	}
+	add(strings.TrimSpace(v), "trimmed")
+	add(strings.Trim(v, cut), "unquoted")
+	add(strings.Join(strings.Fields(v), ""), "whitespace-stripped")
+	add(strings.Map(func(c rune) rune {
+		if strings.ContainsRune(coreSeparators, c) {
+			return -1
+		}
+		return c
+	}, v), "separators-stripped")
+	pieces(strings.Fields(v), "whitespace")
+	pieces(strings.FieldsFunc(v, func(c rune) bool { return strings.ContainsRune(coreSeparators, c) }), "any-separator")
+	for _, sep := range listSeparators {
+		if !strings.Contains(v, sep) {
+			continue
+		}
+		name := str("%q", sep)
+		parts := strings.Split(v, sep)
+		pieces(parts, name)
+		add(strings.Replace(v, sep, "", -1), "stripped-"+name)
+		add(parts[0]+sep, "first-piece-with-separator-"+name)
+		rev := make([]string, len(parts))
+		for k := range parts {
+			rev[len(parts)-1-k] = parts[k]
+		}
+		add(strings.Join(rev, sep), "pieces-reordered-"+name)
+	}
+	var arr []string
+	if json.Unmarshal([]byte(v), &arr) == nil {
+		pieces(arr, "json-array")
+	}
+	var obj map[string]string
+	if json.Unmarshal([]byte(v), &obj) == nil {
+		for k, x := range obj {
+			pieces([]string{k, x}, "json-object")
+		}
+	}
+	for _, ws := range []string{" ", "\t", "\n", "  ", " \t "} {
+		seen[ws] = false
+		add(ws, "whitespace-only")
+	}
+	derivedCache.Store(v, out)
+	return out
+}
+
+// derivation slots; splitting on one separator gets four of them (the separator is drawn per case)
+var pieceCategories = []string{"trimmed", "split-on-separator", "whitespace-stripped", "whitespace-field", "split-on-separator", "separators-stripped",
+	"unquoted-or-json-element", "split-on-separator", "reordered-or-first-with-separator", "any-separator-field", "split-on-separator", "whitespace-only"}
+
+// derivedByCategory picks ONE wrong value derived from the parts of v: the category says which
+// lenient reading of v is imitated, which says first / last / random piece. A category that does
+// not apply to v (nothing to trim, no such separator) falls through to the next one.
+func derivedByCategory(r *rand.Rand, v string, cat, which int) (string, string) {
+	const cut = " \t\r\n\"'[]{}"
+	choose := func(parts []string) string {
+		var ne []string
+		for _, p := range parts {
+			if p != "" {
+				ne = append(ne, p)
+			}
+		}
+		if len(ne) == 0 {
+			return ""
+		}
+		switch which {
+		case 0:
+			return ne[0]
+		case 1:
+			return ne[len(ne)-1]
+		}
+		return ne[r.Intn(len(ne))]
+	}
+	var present, presentCore []string
+	for _, sep := range listSeparators {
+		if strings.Contains(v, sep) {
+			present = append(present, sep)
+			if strings.Contains(coreSeparators, sep) {
+				presentCore = append(presentCore, sep)
+			}
+		}
+	}
+	for t := 0; t < len(pieceCategories); t++ {
+		c := pieceCategories[(cat+t)%len(pieceCategories)]
+		val := ""
+		switch c {
+		case "trimmed":
+			val = strings.TrimSpace(v)
+		case "whitespace-stripped":
+			val = strings.Join(strings.Fields(v), "")
+		case "whitespace-field":
+			val = choose(strings.Fields(v))
+		case "split-on-separator":
+			pool := present
+			if len(presentCore) > 0 && r.Intn(4) != 0 {
+				pool = presentCore
+			}
+			if len(pool) == 0 {
+				break
+			}
+			sep := pool[r.Intn(len(pool))]
+			val = choose(strings.Split(v, sep))
+			switch r.Intn(3) {
+			case 0:
+				val = strings.TrimSpace(val)
+			case 1:
+				val = strings.Trim(val, cut)
+			}
+			c += str(":%q", sep)
+		case "separators-stripped":
+			if len(presentCore) > 0 && r.Intn(2) == 0 {
+				sep := presentCore[r.Intn(len(presentCore))]
+				val = strings.Replace(v, sep, "", -1)
+				break
+			}
+			val = strings.Map(func(ch rune) rune {
+				if strings.ContainsRune(coreSeparators, ch) {
+					return -1
+				}
+				return ch
+			}, v)
+		case "unquoted-or-json-element":
+			var arr []string
+			var obj map[string]string
+			switch {
+			case json.Unmarshal([]byte(v), &arr) == nil && len(arr) > 0:
+				val = choose(arr)
+			case json.Unmarshal([]byte(v), &obj) == nil && len(obj) > 0:
+				var kvs []string
+				for _, k := range sortedKeys(obj) {
+					kvs = append(kvs, k, obj[k])
+				}
+				val = choose(kvs)
+			default:
+				val = strings.Trim(v, cut)
+			}
+		case "reordered-or-first-with-separator":
+			if len(present) == 0 {
+				break
+			}
+			sep := present[r.Intn(len(present))]
+			parts := strings.Split(v, sep)
+			if which == 0 {
+				val = parts[0] + sep
+				break
+			}
+			rev := make([]string, len(parts))
+			for k := range parts {
+				rev[len(parts)-1-k] = parts[k]
+			}
+			val = strings.Join(rev, sep)
+		case "any-separator-field":
+			val = choose(strings.FieldsFunc(v, func(ch rune) bool { return strings.ContainsRune(coreSeparators, ch) }))
+		case "whitespace-only":
+			return pick(r, " ", "\t", "\n", "  ", " \t "), piecesKind + c
+		}
+		if val != "" && val != v {
+			return val, piecesKind + c
+		}
+	}
+	return " ", piecesKind + "whitespace-only"
 }
 
 // isToken: printable ASCII without control characters (safe as a header field value).
@@ -318,24 +595,116 @@ type stack struct {
 	as         *sut.AuthStack
 	other      *sut.AuthStack // another authenticator (own keys, own credentials)
 	attributed int64          // IdP calls attributed to cases (atomic)
+	shape      string         // shape of the configured client id / secret
+	exotic     bool           // id/secret contain separators, padding, quoting ...
 }
 
 func (s *stack) attribute(n int) { atomic.AddInt64(&s.attributed, int64(n)) }
 
 const secretPool = alnum + "-_.~+/=&%!*"
 
+// word is a piece of an exotic credential: long enough never to occur in a page by accident.
+func word(r *rand.Rand) string { return randFrom(r, alnum, 6+r.Intn(5)) }
+
+// exoticShapes are configured values some parser might treat specially (lists, padding, quoting).
+// All of them are legal for auth.Configuration.Validate (non-empty is all it asks of a client id/secret).
+var exoticShapes = []struct {
+	name string
+	mk   func(r *rand.Rand) string
+}{
+	{"a,b", func(r *rand.Rand) string { return word(r) + "," + word(r) }},
+	{"a,", func(r *rand.Rand) string { return word(r) + "," }},
+	{",a", func(r *rand.Rand) string { return "," + word(r) }},
+	{"a,,b", func(r *rand.Rand) string { return word(r) + ",," + word(r) }},
+	{"a, b", func(r *rand.Rand) string { return word(r) + ", " + word(r) }},
+	{"a,b,c", func(r *rand.Rand) string { return word(r) + "," + word(r) + "," + word(r) }},
+	{"a;b", func(r *rand.Rand) string { return word(r) + ";" + word(r) }},
+	{"a|b", func(r *rand.Rand) string { return word(r) + "|" + word(r) }},
+	{"a:b", func(r *rand.Rand) string { return word(r) + ":" + word(r) }},
+	{"a b", func(r *rand.Rand) string { return word(r) + " " + word(r) }},
+	{"a<TAB>b", func(r *rand.Rand) string { return word(r) + "\t" + word(r) }},
+	{"a<LF>b", func(r *rand.Rand) string { return word(r) + "\n" + word(r) }},
+	{"a<CRLF>b", func(r *rand.Rand) string { return word(r) + "\r\n" + word(r) }},
+	{"<SP>a", func(r *rand.Rand) string { return " " + word(r) }},
+	{"a<SP>", func(r *rand.Rand) string { return word(r) + " " }},
+	{"<SP>a<SP>", func(r *rand.Rand) string { return " " + word(r) + " " }},
+	{"<TAB>a<LF>", func(r *rand.Rand) string { return "\t" + word(r) + "\n" }},
+	{"double-quoted", func(r *rand.Rand) string { return `"` + word(r) + `"` }},
+	{"single-quoted", func(r *rand.Rand) string { return "'" + word(r) + "'" }},
+	{"k=v", func(r *rand.Rand) string { return word(r) + "=" + word(r) }},
+	{"json-array", func(r *rand.Rand) string { return `["` + word(r) + `","` + word(r) + `"]` }},
+	{"json-object", func(r *rand.Rand) string { return `{"` + word(r) + `":"` + word(r) + `"}` }},
+	{"percent-encoded-comma", func(r *rand.Rand) string { return word(r) + "%2C" + word(r) }},
+	{"long-list", func(r *rand.Rand) string {
+		s := word(r)
+		for len(s) < 120 {
+			s += pick(r, ",", ";", " ", "|", ":") + word(r)
+		}
+		return s
+	}},
+}
+
+// sinkPadded: every separator at once, blank-padded, trailing separator (cannot travel in a header exactly).
+func sinkPadded(r *rand.Rand) string {
+	return " " + word(r) + "," + word(r) + ";" + word(r) + "|" + word(r) + ":" + word(r) + " " + word(r) + "\t" + word(r) + "\n" + word(r) + "=\"" + word(r) + "\", "
+}
+
+// sinkHeaderExact: separators a header carries verbatim, with a trailing separator.
+func sinkHeaderExact(r *rand.Rand) string {
+	return word(r) + "," + word(r) + ";" + word(r) + "|" + word(r) + ":" + word(r) + " " + word(r) + "=" + word(r) + ","
+}
+
+// sinkQuoted: a quoted list (the quotes are part of the configured value).
+func sinkQuoted(r *rand.Rand, q, sep string) string { return q + word(r) + sep + word(r) + q }
+
 func newStack(r *rand.Rand, si int) (*stack, error) {
 	o := sut.AuthOpts{}
-	if si > 0 {
-		o.Slug = pick(r, "okta", "idp"+randFrom(r, "abcdefghijklmnopqrstuvwxyz", 3), "corp-sso")
+	shape := "default"
+	switch {
+	case si == 0:
+	case si == 1:
+		shape = "random"
 		o.ClientID = "pc-" + randFrom(r, alnum, 6+r.Intn(12))
 		o.ClientSecret = randFrom(r, alnum, 1) + randFrom(r, secretPool, 16+r.Intn(24)) + randFrom(r, alnum, 1)
+	case si == 2:
+		shape = "id=all-separators-padded secret=all-separators-padded"
+		o.ClientID, o.ClientSecret = sinkPadded(r), sinkPadded(r)
+	case si == 3:
+		shape = "id=all-separators secret=all-separators-trailing"
+		o.ClientID, o.ClientSecret = sinkHeaderExact(r), sinkHeaderExact(r)
+	case si == 4:
+		shape = "id=single-quoted-list secret=double-quoted-list"
+		o.ClientID, o.ClientSecret = sinkQuoted(r, "'", "|"), sinkQuoted(r, `"`, ";")
+	default:
+		a, b := exoticShapes[r.Intn(len(exoticShapes))], exoticShapes[r.Intn(len(exoticShapes))]
+		o.ClientSecret = a.mk(r)
+		shape = "id=plain secret=" + a.name
+		o.ClientID = "pc-" + randFrom(r, alnum, 8)
+		if r.Intn(2) == 0 {
+			o.ClientID = b.mk(r)
+			shape = "id=" + b.name + " secret=" + a.name
+		}
+	}
+	if si > 0 {
+		o.Slug = pick(r, "okta", "idp"+randFrom(r, "abcdefghijklmnopqrstuvwxyz", 3), "corp-sso")
 	}
 	as, err := sut.NewAuthStack(o)
 	if err != nil {
 		return nil, err
 	}
-	return &stack{as: as}, nil
+	return &stack{as: as, shape: shape, exotic: si >= 2}, nil
+}
+
+// secPlace returns where a step that means to present the RIGHT secret puts it: the preferred
+// place, unless that is the header and a header cannot deliver the configured value exactly.
+func (s *stack) secPlace(pref, method string) string {
+	if pref != "header" || headerExact(s.as.ClientSecret) {
+		return pref
+	}
+	if method == "POST" {
+		return "form"
+	}
+	return "query"
 }
 
 // ---------------------------------------------------------------------------------------------
